@@ -837,6 +837,10 @@ func (c *fctx) assigned(n ast.Node) []envKey {
 			if call, ok := s.X.(*ast.CallExpr); ok {
 				if o := c.mutatedReceiver(call); o != nil {
 					add(c.allKeys(o))
+				} else if id, ok := call.Fun.(*ast.Ident); ok && id.Name == "copy" && len(call.Args) == 2 {
+					if b, isB := c.info.Uses[id].(*types.Builtin); isB && b.Name() == "copy" {
+						add(c.keysOf(call.Args[0]))
+					}
 				} else if f := c.calledFunc(call); f != nil && len(call.Args) == 1 {
 					if _, isOpaque := c.opaqueName(f); isOpaque && f.Type().(*types.Signature).Results().Len() == 0 {
 						add(c.keysOf(call.Args[0])) // in-place opaque function (sort.Float64s)
@@ -1099,6 +1103,11 @@ func (c *fctx) stmts(list []ast.Stmt, k func() string) string {
 				out := c.writeWhole(mut, c.recOf(mut), tmp)
 				return fmt.Sprintf("match %s with\n| None => %s\n| Some %s =>\n%s\nend", term, c.fuelOut(), matchPattern(names), indent(out+next(), "  "))
 			}
+		}
+		if dst, old, src, ok := c.copyCall(call); ok {
+			// copy(dst, src) on a slice variable dst
+			n := c.bind(dst, dst.Name())
+			return fmt.Sprintf("let %s := (go_copy %s %s) in\n", n, old, src) + next()
 		}
 		if o2, name, arg := c.inPlaceOpaque(call); o2 != nil {
 			// f(xs) of an opaque function without results (sort.Float64s): xs becomes  f xs
@@ -2116,6 +2125,26 @@ func (c *fctx) binary(x *ast.BinaryExpr) string {
 		rt := c.typeOf(rt0, x.Y.Pos())
 		return c.binop(x.Op, lt, c.exprAs(x.X, c.info.TypeOf(x)), c.expr(x.Y), rt, x.Pos())
 	case token.EQL, token.NEQ, token.LSS, token.LEQ, token.GTR, token.GEQ:
+		if x.Op == token.EQL || x.Op == token.NEQ {
+			// xs == nil for a slice: read as len(xs) == 0 (a non-nil empty slice is not
+			// distinguished from nil; README, semantics assumptions)
+			var sl ast.Expr
+			if c.info.Types[x.Y].IsNil() {
+				sl = x.X
+			} else if c.info.Types[x.X].IsNil() {
+				sl = x.Y
+			}
+			if sl != nil {
+				if st, ok := c.tryType(c.info.TypeOf(sl)); ok && st.k == kSlice {
+					t := fmt.Sprintf("(go_isnil %s)", c.expr(sl))
+					if x.Op == token.NEQ {
+						t = "(negb " + t + ")"
+					}
+					return t
+				}
+				c.fail(x.Pos(), "comparison with nil of something other than a slice")
+			}
+		}
 		// operand type: the typed side decides
 		ot := lt0
 		if b, ok := ot.(*types.Basic); ok && b.Info()&types.IsUntyped != 0 {
@@ -2225,7 +2254,7 @@ func (c *fctx) binop(op token.Token, t ty, a, b string, rt ty, p token.Pos) stri
 
 // ---------------------------------------------------------------- calls
 
-var mathFuncs = map[string]string{"Floor": "go_floor", "Ceil": "go_ceil", "Abs": "go_abs", "Max": "go_fmax", "Min": "go_fmin", "Trunc": "go_trunc"}
+var mathFuncs = map[string]string{"Modf": "go_modf", "Floor": "go_floor", "Ceil": "go_ceil", "Abs": "go_abs", "Max": "go_fmax", "Min": "go_fmin", "Trunc": "go_trunc"}
 
 func (c *fctx) opaqueName(f *types.Func) (string, bool) {
 	if c.u.group.Opaque == nil {
@@ -2477,6 +2506,9 @@ func (c *fctx) callN(x *ast.CallExpr, nres int) string {
 
 func (c *fctx) convert(arg ast.Expr, to types.Type, p token.Pos) string {
 	tt := c.typeOf(to, p)
+	if c.info.Types[arg].IsNil() && tt.k == kSlice {
+		return c.zero(tt, p) // []T(nil)
+	}
 	if tv := c.info.Types[arg]; tv.Value != nil {
 		// constant conversion: go/types has the converted constant on the call expression; here
 		// only the representable cases
